@@ -75,7 +75,7 @@ func writeManifest() {
 		}},
 		"checks":         checks,
 		"not_applicable": na,
-		"notes":          "All verdicts are computed from /repo's current source without executing it. thorough = same rules under 3 build configurations (default, -tags leakcheck, GOARCH=386) plus the mutant self-test in /verif/mutants/<ID>/ (regression and seeded patches applied to a scratch copy).",
+		"notes":          "All verdicts are computed from /repo's current source without executing it. thorough = same rules under 3 build configurations (default, -tags leakcheck, GOOS=windows CGO_ENABLED=0) plus the mutant self-test in /verif/mutants/<ID>/ (regression and seeded patches applied to a scratch copy).",
 	}
 	b, _ := json.MarshalIndent(m, "", " ")
 	if err := os.WriteFile("/verif/MANIFEST.json", append(b, '\n'), 0o644); err != nil {
